@@ -116,6 +116,67 @@ def gen_tree_case(c, rational):
     return case
 
 
+def gen_tree_case_adv(c):
+    """tree instances aimed at the representative bookkeeping: more distinct forecast patterns than k
+    at a node, identical members far apart in index, high-index members with extreme forecasts (they
+    become the cluster seeds while lower-index members join their branches), several branching
+    times, at least two forecast samples per window"""
+    rng = c.rng
+    nb = rng.choice([2, 2, 3])
+    per = rng.choice([2, 2, 3])  # samples per window (>= 2: the distances are genuine 2-norms)
+    n = 1 + per * (nb + 1)
+    t0 = rng.choice([0.0, 3.0, -2.5])
+    ts = [t0 + 0.5 * i for i in range(n)]
+    bts = [ts[1 + per * j] for j in range(nb)]
+    E = rng.choice([5, 6, 6, 7, 8])
+    k = rng.choice([2, 2, 2, 3])
+    names = ["c0"] + (["c1"] if rng.random() < 0.3 else [])
+    cin = {}
+    # a planted configuration in window `gw`: members x < a < c < b < y with levels lo, la, lc, la, hi
+    # (la - lo < hi - la, hi - lc < lc - lo, lc - la < la - lo): x and y are the seeds, a joins x's
+    # branch, c joins y's branch, and b -- identical to a -- must follow a although c is closer to it
+    # than the seed x; the five members are identical in the windows before `gw`
+    gw = 1 if rng.random() < 0.7 else 2
+    gx, ga, gc, gb, gy = sorted(rng.sample(range(E), 5))
+    hi = rng.choice([10.0, 20.0, 30.0])
+    lo, la, lc = 0.0, 4 * hi / 10, 7 * hi / 10
+    if rng.random() < 0.3:  # mirrored
+        lo, la, lc, hi = hi, 6 * hi / 10, 3 * hi / 10, 0.0
+    gadget = {gx: lo, ga: la, gc: lc, gb: la, gy: hi}
+    for v in names:
+        per_member = [[float(rng.randint(-1, 1))] for _ in range(E)]
+        for w in range(nb + 1):
+            width = per if w < nb else n - 1 - per * nb
+            base = [float(rng.randint(-2, 2)) for _ in range(width)]
+            if w == gw:
+                pick = [gadget.get(m, rng.choice([lo, la, lc])) for m in range(E)]
+            else:
+                q = rng.randint(k + 1, k + 3)
+                levels = sorted(rng.sample([0.0, 2.0, 3.0, 4.0, 5.0, 6.0, 7.0, 8.0, 9.0, 10.0, 12.0, 15.0], q))
+                pick = [rng.choice(levels) for _ in range(E)]
+                if w < gw:
+                    for m in gadget:
+                        pick[m] = pick[gx]
+                elif rng.random() < 0.7:
+                    pick[gb] = pick[ga]  # keep the identical pair identical a little longer
+            for m in range(E):
+                per_member[m] = per_member[m] + [b + pick[m] for b in base]
+        cin[v] = [pm[:n] for pm in per_member]
+    # forced coincidences of other members: copy a prefix
+    for _ in range(rng.randint(0, 2)):
+        a2 = rng.randrange(0, E - 1)
+        b2 = rng.randrange(a2 + 1, E)
+        if b2 in gadget or a2 in gadget:
+            continue
+        cut = rng.randint(1, n)
+        for v in names:
+            cin[v][b2][:cut] = cin[v][a2][:cut]
+    nu = rng.choice([1, 2])
+    controls = ["u%d" % j for j in range(nu)]
+    return dict(ts=ts, E=E, k=k, bts=bts, names=names, use=list(names), cin_times=list(ts), cin=cin,
+                controls=controls, ctimes={}, planning=None, mixins=("tree",), rational=False)
+
+
 def tree_spec(case):
     controls = case["controls"]
     s = Spec(
@@ -286,12 +347,12 @@ def tree_oracle(c, case, branches, idx, N):
     return what
 
 
-def stream_tree(c, N, rational):
+def stream_tree(c, N, rational, adversarial=False):
     rng = c.rng
     cases, lines = [], []
     for _ in range(N):
         for _try in range(20):
-            case = gen_tree_case(c, rational)
+            case = gen_tree_case_adv(c) if adversarial else gen_tree_case(c, rational)
             tabs = dist_tables(case)
             if rational or not near_tie(tabs):
                 break
@@ -312,7 +373,7 @@ def stream_tree(c, N, rational):
         s = tree_spec(case)
         cls = syn_class(case["mixins"])
         r = call(lambda: Transcription(cls(spec=s)))
-        tag = "tree/" + ("rational" if rational else "float")
+        tag = "tree/" + ("adversarial" if adversarial else "rational" if rational else "float")
         c.hit(tag)
         c.hit("tree/E=%d" % case["E"])
         c.hit("tree/k=%d" % case["k"])
@@ -330,7 +391,7 @@ def stream_tree(c, N, rational):
         branches = {tuple(b): list(mem) for b, mem in tr.pr.control_tree_branches.items()}
         idx = [[tr.idx(u, m) for m in range(case["E"])] for u in case["controls"]]
         nontrivial = len({tuple(sorted(mem)) for mem in branches.values() if mem})
-        c.count(("tree", rational, case["E"], case["k"], len(case["bts"]), nontrivial, len(case["controls"]),
+        c.count(("tree", tag, case["E"], case["k"], len(case["bts"]), nontrivial, len(case["controls"]),
                  case["planning"] is not None))
         c.programs += 1
         if nontrivial > 1:
@@ -508,7 +569,9 @@ def run(c):
         "#branching times, #distinct non-empty member sets, #controls, planning) tuples; isolation: per parameter "
         "the member values are exact coincidences (incl. 0, 1), NEAR coincidences (relative 1e-6..1e-5, absolute "
         "~1e-8), tiny magnitudes (1e-9..1e-7, witness coefficient scaled by 2^27..2^33) or mixtures of exact and "
-        "near coincidences; perturbations move one member towards / away from exact and near coincidences"
+        "near coincidences; adversarial tree stream: a planted configuration x < a < c < b < y (b identical to a, "
+        "c closer to a than a's seed x, seeds at the extreme indices) with more patterns than k, 2-3 branching "
+        "times, 2-3 forecast samples per window; perturbations move one member towards / away from exact and near coincidences"
     )
     c.assumptions = [
         "the distance table of a level is data of the model: sum over forecast variables of the 2-norm of the "
@@ -525,6 +588,7 @@ def run(c):
     stream_flat(c, c.n(40, 600))
     stream_tree(c, c.n(100, 2500), rational=True)
     stream_tree(c, c.n(60, 1500), rational=False)
+    stream_tree(c, c.n(40, 600), rational=False, adversarial=True)
     stream_isolation(c, c.n(60, 1000))
     c.exhaustive = False
     c.notes.append(
